@@ -169,6 +169,7 @@ PROPS["C06"] = dict(
             dict(harness="VerifHarness_C06_ignore", reach=["validates", "rejected"]),
             dict(harness="VerifHarness_C06_shift", reach=["validates", "rejected"]),
             dict(harness="VerifHarness_C06_names3", reach=["validates"]),
+            dict(harness="VerifHarness_C06_writers", reach=["validates", "rejected"]),
             dict(harness="VerifHarness_C06_ignore_witness", role="witness", key="C06-ignored-files"),
         ],
         "thorough": [
@@ -176,6 +177,7 @@ PROPS["C06"] = dict(
             dict(harness="VerifHarness_C06_ignore3", reach=["validates", "rejected"]),
             dict(harness="VerifHarness_C06_shift", reach=["validates", "rejected"]),
             dict(harness="VerifHarness_C06_names4", reach=["validates"]),
+            dict(harness="VerifHarness_C06_writers", reach=["validates", "rejected"]),
             dict(harness="VerifHarness_C06_ignore_witness", role="witness", key="C06-ignored-files"),
         ],
     },
@@ -185,7 +187,9 @@ PROPS["C06"] = dict(
                  "starting with the concrete '-- atlas:sum ignore' line followed by 1 symbolic byte; boundary-shift family: 3 files in both "
                  "directories, the first two with symbolic contents of length 0, 1, 5 or 6 chosen independently (so a content can spell a file name "
                  "and the name/content boundaries of the hashed byte stream can move), the third of 1 byte; names family: an untouched two-file directory whose "
-                 "first file name is 1..3 fully symbolic bytes (no line break, path separator or NUL) before .sql",
+                 "first file name is 1..3 fully symbolic bytes (no line break, path separator or NUL) before .sql; writers family: 0..2 existing files, then "
+                 "one or two writes by the real Planner (WritePlan / WriteCheckpoint in 5 orders, symbolic statement bytes), validation after each, "
+                 "then one symbolic byte edit of any file",
         "thorough": "0..4 files x 6 symbolic content bytes (the longest content that cannot itself spell an atlas: directive); sum-ignore family "
                     "0..3 files x 2 bytes; unsat answers cross-checked",
     },
@@ -194,11 +198,11 @@ PROPS["C06"] = dict(
         "real MemDir, NewHashFile, WriteSumFile, HashFile.{Sum,MarshalText,UnmarshalText,SumByName}, Validate, readHashFile are executed; bufio/bytes from source",
         "two arbitrary directories subsume single and compound edits (add anywhere, remove, rename, edit any byte, swap)",
     ],
-    outside="SHA-256 collisions; LocalDir / OS file system; tar archives; edits of the atlas.sum text itself; the Planner writers (WritePlan, "
-            "WriteCheckpoint) and CLI commands hash/import; contents of 7+ bytes that spell their own directive",
+    outside="SHA-256 collisions; LocalDir / OS file system; tar archives; edits of the atlas.sum text itself; the CLI commands "
+            "hash/import/new/set (file-system bound); contents of 7+ bytes that spell their own directive",
     claim="For every pair of directories within the bounds (all content bytes and the edited directory's names are solver variables), the real "
           "Validate succeeds iff the directory is unchanged, reports tampering as ChecksumError/ErrChecksumMismatch, and an untouched directory "
-          "validates. With files carrying the documented 'atlas:sum ignore' directive the exact detected region (hashed view) is asserted instead "
+          "validates - whatever its files are called, and after every write the Planner makes. With files carrying the documented 'atlas:sum ignore' directive the exact detected region (hashed view) is asserted instead "
           "and the undetected remainder is the listed known finding.",
     technique='bounded symbolic execution of the real hash-file code (NewHashFile, Validate, MarshalText/UnmarshalText) from go/ssa with all content bytes and edited names as z3 variables and SHA-256 as an injective uninterpreted token (Dolev-Yao); branches and assertions decided by z3; counterexamples replayed natively with the real SHA-256',
     note="Bounded. Hash abstraction as above (collision freedom is an assumption, not checked). Trusted: engine (incl. its regexp matcher, "
